@@ -1,0 +1,8 @@
+//go:build verif
+
+package sharded
+
+// VerifMasks exposes the computed masks and the number of key bytes used (verification harness only)
+func (sp *shardIDProvider) VerifMasks() (uint32, uint32, int) {
+	return sp.maskHigh, sp.maskLow, sp.bytesNeeded
+}
